@@ -100,3 +100,85 @@ def run(ctx):
                 break
         ctx.rm(cache.rsplit("/", 1)[0])
     ctx.count("histories", nh)
+    concurrent_bystanders(ctx, modes)
+
+
+def shard_twins():
+    """Two keys whose bucket files share both shard directories (index-v5/ab/cd/)."""
+    import hashlib
+    seen = {}
+    i = 0
+    while True:
+        k = f"twin-{i}"
+        h = hashlib.sha1(k.encode()).hexdigest()[:4]
+        if h in seen:
+            return seen[h], k
+        seen[h] = k
+        i += 1
+
+
+def concurrent_bystanders(ctx, modes):
+    """A removal names one key; an operation on ANOTHER key running at the same time must not lose its effect.
+    remove / remove_fully of k1 race (under supervisor-chosen schedules) with a write of k2 whose bucket lives in
+    the same index directories."""
+    import os
+    from .. import crash, sysm
+    from . import c07
+    k1, k2 = shard_twins()
+    d1, d2 = b"victim data", b"bystander written concurrently"
+    work = ctx.new_dir("conc")
+    nrand = 30 if ctx.quick else 400
+    for removal in ("remove_fully", "remove"):
+        pt = {"name": f"{removal}(k1)||W(k2)-same-shard", "prep": [c07.W(ctx, k1, d1, 5)],
+              "ops": [{"op": removal, "cache": "<C>", "key": k1}, c07.W(ctx, k2, d2, 9)], "keys": [k1, k2], "sris": []}
+        for mode in modes:
+            tdir = os.path.join(work, f"t-{removal}-{mode.replace('@', '-')}")
+            os.makedirs(tdir)
+            crash.build_template(ctx, crash.Scenario(pt["name"], mode, None, pt["prep"]), tdir)
+            jobs = []
+            for i in range(nrand):
+                prefix = []
+                if ctx.rng.random() < 0.6:
+                    for _ in range(ctx.rng.randint(1, 3)):
+                        prefix += [ctx.rng.randrange(2)] * ctx.rng.randint(1, 10)
+                jobs.append((prefix, f"rand:{ctx.seed * 31 + i}"))
+
+            def one(job, pt=pt, mode=mode, tdir=tdir):
+                prefix, tail = job
+                rdir = os.path.join(work, f"s-{os.getpid()}-{__import__('time').time_ns()}")
+                cache = crash.instantiate(tdir, rdir)
+                variant, m = drv.MODES[mode]
+                cmds = [sysm.oneshot(variant, crash.subst(q, cache), m) for q in pt["ops"]]
+                res = sysm.run(cmds, [cache], work, sched=prefix, tail=tail, nosched="fstat", timeout=60)
+                return rdir, cache, res
+
+            inter = set()
+            for rdir, cache, res in crash.pmap(one, jobs):
+                if res.timed_out:
+                    ctx.inconc(f"{pt['name']} in {mode}: supervisor watchdog")
+                    ctx.rm(rdir)
+                    continue
+                r0 = (res.responses(0) or [{"died": {}}])[0]
+                r1 = (res.responses(1) or [{"died": {}}])[0]
+                order = tuple(e["proc"] for e in res.events if e.get("sched") and "name" in e)
+                inter.add(order)
+                ctx.case(distinct_key=("concurrent", removal, mode, order),
+                         sample={"concurrent": pt["name"], "mode": mode, "interleaving": list(order)[:40]} if len(inter) % 25 == 1 else None)
+                ctx.count("concurrent_removal_schedules")
+                det = {"pair": pt["name"], "mode": mode, "keys": [k1, k2], "interleaving": list(order), "results": [ev.brief(r0), ev.brief(r1)],
+                       "steps": [["sync@astd", q] for q in pt["prep"]] + [[mode, q] for q in pt["ops"]], "sysmon_argv": res.argv[:14]}
+                md = ctx.call("sync@astd", {"op": "metadata", "cache": cache, "key": k2})
+                rd = ctx.call("async@tok", {"op": "read", "cache": cache, "key": k2})
+                if ev.is_ok(r1):
+                    if not ev.is_ok(md) or md["ok"]["entry"] is None or not ev.is_ok(rd) or drv.data_bytes(rd["ok"]["data"]) != d2:
+                        ctx.violation(f"concurrent|{removal}|{mode}|other-key-lost",
+                                      f"{removal}({k1!r}) ran concurrently with a successful write of another key {k2!r} (same index "
+                                      f"directories): afterwards {k2!r} gives {ev.brief(md)} / {ev.brief(rd)}", det)
+                elif ev.is_panic(r1) or ev.is_panic(r0):
+                    ctx.violation(f"concurrent|{removal}|{mode}|panic", f"{pt['name']}: {ev.brief(r0)} / {ev.brief(r1)}", det)
+                m1 = ctx.call("sync@astd", {"op": "metadata", "cache": cache, "key": k1})
+                if ev.is_ok(r0) and not (ev.is_ok(m1) and m1["ok"]["entry"] is None):
+                    ctx.violation(f"concurrent|{removal}|{mode}|removed-key-still-there", f"{removal} returned Ok but {k1!r} is still found", det)
+                ctx.rm(rdir)
+            ctx.extra.setdefault("concurrent_distinct_interleavings", {})[f"{removal}@{mode}"] = len(inter)
+            ctx.rm(tdir)
